@@ -2,6 +2,7 @@ import ApolloModel.Model.Proto
 import ApolloModel.Model.SchemaValidation
 import ApolloModel.Model.Implementation
 import ApolloModel.Model.DirectiveApplications
+import Driver.D14b
 open Apollo Apollo.Proto Apollo.SchemaValidation Apollo.SchemaInvariants Apollo.Implementation
 namespace Driver
 
@@ -136,6 +137,6 @@ def c14 (stream : String) (fs : List String) : String :=
     let k := decodeKindEnv env
     let c (t : TypeRefs) := toString (typeRefDiags k t).length
     c ⟨strList fts, strList ats, [], []⟩ ++ "," ++ c ⟨[], [], strList ifts, []⟩ ++ "," ++ c ⟨[], [], [], strList ms⟩
-  | _, _ => "bad-case"
+  | s, fs => D14b.c14b s fs
 
 end Driver
